@@ -37,6 +37,32 @@ func VP_C18_verify() {
 	vp.Cover("end")
 }
 
+// presenting the same (key, signature) pair again - any number of times, through
+// either entry point - is judged like the first time: every acceptance is backed
+// by an RSA verification against the embedded key made during that very call
+// (no outcome remembered between calls can stand in for it).
+func VP_C18_verify_again() {
+	key := vp.Bytes(2)
+	sig := vp.Bytes(vp.Choice(3))
+	first := VerifySignature(key, sig)
+	if vp.Symbolic() {
+		vp.Assume(!first || !vp.StubArgIs("rsa.verify.okkey", pubKey)) // the first presentation was not a genuine one
+		calls := vp.StubCount("rsa.verify")
+		again := VerifySignature(key, sig)
+		if again {
+			vp.Assert(vp.StubCount("rsa.verify") > calls && vp.StubResult("rsa.verify") == 0 && vp.StubArgIs("rsa.verify.key", pubKey), vpLabel)
+		}
+	} else {
+		vp.Assert(!first, vpLabel)
+		for i := 0; i < 3; i++ {
+			vp.Assert(!VerifySignature(key, sig), vpLabel)
+		}
+		p := PublicKey{ExpiresAt: time.Now().Add(time.Hour), PubKey: &rsa.PublicKey{N: big.NewInt(7), E: 65537}, Signature: sig}
+		vp.Assert(!p.Verify() && !p.Verify(), vpLabel)
+	}
+	vp.Cover("end")
+}
+
 // The packet-level entry point: a profile key (constructed directly or read from
 // the wire) whose Verify() says true has had its signature verified against the
 // embedded services key; a success against any other key (its own, say) is not enough.
